@@ -143,10 +143,10 @@ func runC03(c *Ctx) {
 	// nothing reachable from the hook records or resolves
 	forbidden := map[string]bool{
 		"iface:(querylog.QueryLog).Add": true, "iface:(stats.Interface).Update": true,
-		"(*github.com/AdguardTeam/dnsproxy/proxy.Proxy).Resolve":                   true,
-		"iface:(github.com/AdguardTeam/dnsproxy/upstream.Upstream).Exchange":       true,
-		"(*github.com/AdguardTeam/dnsproxy/proxy.Proxy).LookupNetIP":               true,
-		"(*dnsforward.Server).logQuery": true, "(*dnsforward.Server).updateStats": true,
+		"(*github.com/AdguardTeam/dnsproxy/proxy.Proxy).Resolve":             true,
+		"iface:(github.com/AdguardTeam/dnsproxy/upstream.Upstream).Exchange": true,
+		"(*github.com/AdguardTeam/dnsproxy/proxy.Proxy).LookupNetIP":         true,
+		"(*dnsforward.Server).logQuery":                                      true, "(*dnsforward.Server).updateStats": true,
 	}
 	seen := map[*ssa.Function]bool{}
 	var hits []string
